@@ -161,3 +161,41 @@ def _local_waker_shape(src):
 
 
 register("local_waker_shape", span_custom("local-waker/src/lib.rs", _local_waker_shape))
+
+
+# ------------------------------------------------------------------------------------------------
+# `impl Host for http::Uri` (cargo feature `uri`): the scheme -> well-known port table of connect/uri.rs
+# is TRANSLATED arm by arm into a Lean table (an arm `Some("a") | Some("b") => Some(N)` gives two entries),
+# plus shape facts for the two `Host` impls (http 0.2 and http 1).
+# ------------------------------------------------------------------------------------------------
+def _uri_span(src):
+    fn = _block(src, r"fn scheme_to_port\(scheme: Option<&str>\)\s*->\s*Option<u16>\s*\{", "scheme_to_port")
+    m = re.search(r"match scheme\s*\{(.*)\}\s*\}\s*$", fn, re.S)
+    if not m:
+        raise Fail("scheme_to_port: expected a single `match scheme { .. }`")
+    body = m.group(1)
+    entries, rest = [], body
+    arm = re.compile(r"\s*((?:Some\(\"[^\"]*\"\)\s*\|\s*)*Some\(\"[^\"]*\"\))\s*=>\s*Some\((\d[\d_]*)\)\s*,")
+    pos = 0
+    while True:
+        mm = arm.match(body, pos)
+        if not mm:
+            break
+        for s in re.findall(r"Some\(\"([^\"]*)\"\)", mm.group(1)):
+            entries.append((s, int(mm.group(2).replace("_", ""))))
+        pos = mm.end()
+    rest = body[pos:].strip()
+    # whatever is not listed has no well-known port
+    if not re.fullmatch(r"_\s*=>\s*None\s*,?", rest):
+        raise Fail("scheme_to_port: untranslatable arm(s): %r" % rest[:120])
+    impls = re.findall(r"impl Host for (http_[0-9_]+)::Uri\s*\{(.*?)\n\}", src, re.S)
+    facts = [("uri_impls_for_http_0_2_and_1", sorted(n for n, _ in impls) == ["http_0_2", "http_1"])]
+    for n, b in impls:
+        facts.append(("%s_hostname_is_host_or_empty" % n, _has(b, "fn hostname ( & self ) -> & str { self . host ( ) . unwrap_or ( \"\" ) }")))
+        facts.append(("%s_explicit_port_else_scheme" % n, _has(b, "match self . port_u16 ( ) { Some ( port ) => Some ( port ) , None => scheme_to_port ( self . scheme_str ( ) ) , }")))
+    lean = "def tlsSchemePorts : List (String × Nat) := [%s]\n%s" % (
+        ", ".join('("%s", %d)' % e for e in entries), _lean_facts("tlsUriShape", facts))
+    return lean, src
+
+
+register("tls_uri_scheme_ports", span_custom("actix-tls/src/connect/uri.rs", _uri_span))
